@@ -628,25 +628,26 @@ static void part_dfs(void) {
 }
 
 static void run(void) {
-	int ci, e1, e2;
+	int ci, e1, e2, e3;
 	int depth = VF_THOROUGH ? 8 : 6;
 	seen = calloc((size_t)1 << SEEN_BITS, sizeof *seen);
 	for (ci = 0; ci < NCONFIGS; ci++) {
 		int d = depth;
 		if (!VF_THOROUGH && ci >= 4) d = depth - 1;
 		if (CONFIGS[ci].cache >= 3) d -= 1;
-		/* one case = the subtree below a two-event prefix (shards split the prefixes) */
-		for (e1 = 0; e1 < EV_NEVENTS; e1++) for (e2 = 0; e2 < EV_NEVENTS; e2++) {
+		/* one case = the subtree below a two-event (thorough: three-event) prefix (shards split the prefixes) */
+		for (e1 = 0; e1 < EV_NEVENTS; e1++) for (e2 = 0; e2 < EV_NEVENTS; e2++) for (e3 = 0; e3 < (VF_THOROUGH ? EV_NEVENTS : 1); e3++) {
 			int hist[16];
 			char nm[8];
-			if (!vf_case_begin("bfs:cfg%d:%c%c:d%d", ci, EVCH[e1], EVCH[e2], d)) continue;
+			int plen = VF_THOROUGH ? 3 : 2;
+			if (!vf_case_begin("bfs:cfg%d:%c%c%s:d%d", ci, EVCH[e1], EVCH[e2], VF_THOROUGH ? (char[2]){EVCH[e3], 0} : "", d)) continue;
 			memset(seen, 0, ((size_t)1 << SEEN_BITS) * sizeof *seen);
 			n_states = n_transitions = n_pruned = n_traces = 0;
-			hist[0] = e1; hist[1] = e2;
-			explore(&CONFIGS[ci], hist, 2, d);
+			hist[0] = e1; hist[1] = e2; hist[2] = e3;
+			explore(&CONFIGS[ci], hist, plen, d);
 			vf_count("states", n_states); vf_count("transitions", n_transitions); vf_count("traces", n_traces); vf_count("pruned_revisits", n_pruned);
 			vf_max("max_depth", d);
-			hist_name(hist, 2, nm);
+			hist_name(hist, plen, nm);
 			if (ci == 0 && e1 == 0 && e2 == 1) vf_sample("cfg{cache=%d,maxreq=%d,snd=%d,rcv=%d,con=%d} prefix %s depth %d: %ld states, %ld transitions (event letters: %s)", CONFIGS[ci].cache, CONFIGS[ci].maxreq, CONFIGS[ci].snd, CONFIGS[ci].rcv, CONFIGS[ci].con, nm, d, n_states, n_transitions, EVCH);
 			vf_obs("states=%ld", n_states);
 			vf_case_end(n_traces > 0);
